@@ -115,6 +115,17 @@ pub fn reset(inputs: Vec<u64>) {
     })
 }
 
+/// Like `reset` but leaves the process-global anomaly list alone (used by threads of one case).
+pub fn reset_local(inputs: Vec<u64>) {
+    uncounted(|| {
+        HOST.with(|h| {
+            let mut h = h.borrow_mut();
+            h.inputs = inputs;
+            h.log.clear();
+        });
+    })
+}
+
 pub fn take_log() -> Vec<Ev> {
     uncounted(|| HOST.with(|h| std::mem::take(&mut h.borrow_mut().log)))
 }
